@@ -1,5 +1,6 @@
 //! rxRust verification harness: executes case files against the real crate and prints
 //! one canonical result line per case.
+mod asyncsrc;
 mod chain;
 mod flatten;
 mod group;
@@ -26,6 +27,8 @@ fn run_case(case: &Sexp) -> String {
     "group_by" => group::run_group_by(body),
     "flatten" => flatten::run_flatten(body),
     "timed" => timed::run_timed(body),
+    "async" => asyncsrc::run_async(body),
+    "atform" => timed::run_atform(body),
     "subject" => subj::run_subject(body),
     "behavior" => subj::run_behavior(body),
     "op2" => chain::local::run_op2(body),
